@@ -1050,6 +1050,7 @@ def run(ctx, rep, cases=None):
         judge(cs, im, expand(cs, replies[a:a + n]), sr, sm, rep)
     user_volume_stream(ctx, rep)
     multi_slice_stream(ctx, rep)
+    joint_slice_stream(ctx, rep)
     dtype_stream(ctx, rep)
     resupply_stream(ctx, rep)
     malformed_stream(ctx, rep)
@@ -1673,6 +1674,234 @@ def resupply_judge(cases, rep):
             rep.fail(f"{text}: the parent D answers differently after the calls (same points, same rows)", desc)
 
 
+def leaf_nodes(n_):
+    return [n_] if n_.is_prim() else [l_ for k_ in n_.kids for l_ in leaf_nodes(k_)]
+
+
+def joint_slice_stream(ctx, rep):
+    """ONE call that fixes the variables of SEVERAL factors of a (nested) product — all of them, or all but one —,
+    compared with the sequential calls in other orders, with the slice written by hand (every completely fixed
+    factor = Point), with the model `sliceRec` and, on the slice, with the original evaluated at those values:
+    membership, necessary_variables, volume, and the fixed coordinates of the samples."""
+    tp = common.use_repo()
+    import torch
+    rng = ctx.rng
+    cases = []
+    for i in range(ctx.scale(36, 360)):
+        shape = rng.choice(["AB", "AB", "(AB)C", "A(BC)"])
+        names = ["t", "s"] if shape != "AB" else [rng.choice(["t", "s"])]
+        avar = rng.choice(["x", "x", "y", "z"])
+        lv = [avar] + names                                   # variables of the leaves, left to right
+        par = ["D"] if rng.random() < 0.6 else []
+        leaves = []
+        for j, v_ in enumerate(lv):
+            deps = [w_ for w_ in lv[j + 1:] if geomgen.DIM[w_] == 1 and rng.random() < 0.7] + par
+            gj = Gen17(rng, params=deps, p_dep=0.7)
+            leaves.append(gj.prim(v_))
+        if shape == "AB":
+            node = Node("prod", None, [], leaves)
+        elif shape == "(AB)C":
+            node = Node("prod", None, [], [Node("prod", None, [], leaves[:2]), leaves[2]])
+        else:
+            node = Node("prod", None, [], [leaves[0], Node("prod", None, [], leaves[1:])])
+        nfix = len(leaves) if rng.random() < 0.6 else len(leaves) - 1
+        fixed_leaves = sorted(rng.sample(range(len(leaves)), max(2, nfix))) if len(leaves) > 2 else [0, 1]
+        sigma = {}
+        fix_par = bool(par) and rng.random() < 0.5
+        if fix_par:
+            sigma["D"] = [Fr(rng.randint(0, 16), 16)]
+        prow = [{p_: [Fr(rng.randint(0, 16), 16)] for p_ in par if not fix_par}]
+        # values right to left, inside the leaf as evaluated so far (sometimes outside)
+        env = dict(sigma, **prow[0])
+        inside = True
+        for j in reversed(range(len(leaves))):
+            lf = leaves[j]
+            try:
+                if lf.kind == "interval":
+                    lo, hi = lf.pfs[0].eval(env)[0], lf.pfs[1].eval(env)[0]
+                    val = [lo + (hi - lo) * Fr(rng.randint(1, 7), 8)]
+                    if not lo < hi:
+                        inside = False            # the partner's value makes this factor empty
+                elif lf.kind in ("circle", "sphere"):
+                    val = list(lf.pfs[0].eval(env))
+                    if not lf.pfs[1].eval(env)[0] > 0:
+                        inside = False
+                else:
+                    o, c1_, c2_ = [p_.eval(env) for p_ in lf.pfs]
+                    val = [o[k_] + (c1_[k_] - o[k_]) / 3 + (c2_[k_] - o[k_]) / 3 for k_ in range(2)]
+            except KeyError:
+                val = [Fr(0)] * geomgen.DIM[lf.var]
+            val = [Fr(round(a * 64), 64) for a in val]
+            if lf.kind == "interval":
+                try:
+                    if not lf.pfs[0].eval(env)[0] <= val[0] <= lf.pfs[1].eval(env)[0]:
+                        inside = False
+                except KeyError:
+                    inside = False
+            if rng.random() < 0.1:
+                val = [val[0] + 7] + val[1:]
+                inside = False
+            env[lf.var] = val
+            if j in fixed_leaves:
+                sigma[lf.var] = val
+        fvars = [leaves[j].var for j in fixed_leaves]
+        rows = []
+        for r_ in range(ctx.scale(18, 30)):
+            pt = {}
+            kind = rng.choice(["on", "on", "on", "off", "off", "rand"])
+            for j, lf in enumerate(leaves):
+                d = geomgen.DIM[lf.var]
+                if kind == "rand" or (j not in fixed_leaves and rng.random() < 0.5):
+                    pt[lf.var] = [Fr(rng.randint(-3 * 32, 3 * 32), 32) for _ in range(d)]
+                else:
+                    pt[lf.var] = list(env[lf.var])
+                    if j not in fixed_leaves:
+                        pt[lf.var] = [a + Fr(rng.randint(-8, 8), 64) for a in pt[lf.var]]
+            if kind == "off":
+                w_ = rng.choice(fvars)
+                pt[w_] = [pt[w_][0] + rng.choice([Fr(1, 16), Fr(-1, 16), Fr(1, 4)])] + pt[w_][1:]
+            rows.append((pt, 0))
+        order = list(sigma)
+        rng.shuffle(order)
+        cases.append(dict(node=node, shape=shape, leaves=[lf.var for lf in leaves], fvars=fvars, sigma=sigma, order=order, prow=prow, rows=rows,
+                          inside=inside, rest=[p_ for p_ in par if not fix_par], id=i))
+    joint_slice_judge(cases, rep, rng)
+
+
+def joint_slice_judge(cases, rep, rng):
+    tp = common.use_repo()
+    import torch
+    import itertools
+    lines = [f"slicerec {TOL} {PTOL} {cs['node'].tokens()} {env_tokens(cs['sigma'])} "
+             f"{rows_tokens([(frs(pt), j) for pt, j in cs['rows']], [frs(p_) for p_ in cs['prow']])}" for cs in cases]
+    replies = common.run_driver("C17", lines)
+    for cs, rl in zip(cases, replies):
+        node, sigma, prow, rest, fvars = cs["node"], cs["sigma"], cs["prow"], cs["rest"], cs["fvars"]
+        rep.count("joint-slice:" + cs["shape"] + (":all-factors" if len(fvars) == len(cs["leaves"]) else ":all-but-one"))
+        fl = lambda d_: {k_: [float(a) for a in v_] for k_, v_ in d_.items()}
+        call = "D(" + ", ".join(f"{k_}={[float(a) for a in sigma[k_]]}" for k_ in cs["order"]) + ")"
+        desc = dict(stream="joint-slice", expression=node.tokens(), dom=node.describe(), shape=cs["shape"], leaves=cs["leaves"], fixed_factor_variables=fvars,
+                    sigma=frs(sigma), keyword_order=cs["order"], prow=[frs(p_) for p_ in prow], remaining=rest, inside=cs["inside"], id=cs["id"],
+                    rows=[(frs(pt), j) for pt, j in cs["rows"]])
+        tens = lambda names: {k_: torch.tensor([[float(a) for a in sigma[k_]]], dtype=torch.float32) for k_ in names}
+        D, e0 = attempt(lambda: to_tp(node, tp))
+        if e0:
+            rep.count("joint-slice:not-built")
+            continue
+        E, e1 = attempt(lambda: D(**tens(cs["order"])))
+        if e1:
+            if not e1.startswith("timeout"):
+                rep.fail(f"{call} raised {e1}", desc)
+            continue
+        # the same values, one factor after the other, in other orders (a fixed parameter goes with the first call)
+        perms = list(itertools.permutations(fvars))
+        rng.shuffle(perms)
+        seqs = []
+        for perm in perms[:3]:
+            def seq(perm=perm):
+                cur = D
+                for n_, w_ in enumerate(perm):
+                    cur = cur(**tens([w_] + ([p_ for p_ in sigma if p_ not in fvars] if n_ == 0 else [])))
+                return cur
+            S_, es = attempt(seq)
+            if es:
+                if not es.startswith("timeout"):
+                    rep.fail(f"the sequential evaluation in the order {list(perm)} raised {es} while the single call {call} works", desc)
+                continue
+            seqs.append((list(perm), S_))
+
+        def hand(n_):
+            if all(w_ in sigma for w_ in n_.vars()):
+                return tp.domains.Point(n_.space(tp), [float(a) for w_ in n_.vars() for a in sigma[w_]])
+            if n_.kind == "prod":
+                return hand(n_.kids[0]) * hand(n_.kids[1])
+            return to_tp(subst(n_, sigma), tp)
+        H, eh = attempt(lambda: hand(node))
+        refs = [(f"the sequential calls in the order {p_}", S_) for p_, S_ in seqs] + ([("the slice written by hand (every completely fixed factor = Point)", H)] if H is not None else [])
+        pts = mk_points(tp, torch, node, [frs(pt) for pt, _ in cs["rows"]])
+        n = len(cs["rows"])
+        prm = mk_params(tp, torch, rest, [frs(prow[0])] * n)
+        k1 = mk_params(tp, torch, rest, [frs(prow[0])])
+        got, eg = attempt(E._contains, pts, prm)
+        rls = rl.split(";")
+        nvm = vset(rls[0].split()[3])
+        if E.necessary_variables is not None and sorted(E.necessary_variables) != nvm:
+            rep.disagree("drivers/C17.lean slicerec: necessary_variables", desc, sorted(E.necessary_variables), nvm)
+        for label, R_ in refs:
+            if sorted(R_.necessary_variables) != sorted(E.necessary_variables):
+                rep.fail(f"{call}.necessary_variables = {sorted(E.necessary_variables)} but {label} give(s) {sorted(R_.necessary_variables)}", desc)
+                break
+        if eg:
+            if not eg.startswith("timeout"):
+                rep.fail(f"{call}._contains raised {eg}", desc)
+            continue
+        g_ = [bool(x) for x in got.reshape(-1).tolist()]
+        ref_ans = []
+        for label, R_ in refs:
+            a_, ea = attempt(R_._contains, pts, prm)
+            if ea is None:
+                ref_ans.append((label, [bool(x) for x in a_.reshape(-1).tolist()]))
+        failed = False
+        for idx, (pt, _) in enumerate(cs["rows"]):
+            c1_, c2_, mg, _, mgs = rls[idx].split()
+            # decided: the kept factors are off their edges, the fixed coordinates are equal or clearly different
+            if mgs != "none" and Fr(mgs) <= MARGIN:
+                rep.count("joint-slice:within-margin(skipped)")
+                continue
+            rep.count("joint-slice:decided")
+            where = {k_: [float(a) for a in v_] for k_, v_ in pt.items()}
+            for label, ans in ref_ans:
+                if ans[idx] != g_[idx]:
+                    rep.fail(f"{call} (one call) answers {g_[idx]} at {where}, {label} answer(s) {ans[idx]}", dict(desc, point=frs(pt)))
+                    failed = True
+                    break
+            if failed:
+                break
+            if c1_ != "none" and g_[idx] != (c1_ == "1"):
+                rep.disagree("drivers/C17.lean slicerec: membership", dict(desc, point=frs(pt)), g_[idx], rls[idx])
+            on = all(pt[w_] == sigma[w_] for w_ in fvars)
+            # a fixed factor that depends on a KEPT coordinate is replaced by the point whatever that coordinate is
+            # (by design: {x0} x B, not {(x0, t): x0 in A(t)}): there only "inside the original => inside the slice" holds
+            kept = [w_ for w_ in cs["leaves"] if w_ not in fvars]
+            row_dep = any(w_ in lf_.free_vars() for lf_ in leaf_nodes(node) if lf_.var in fvars for w_ in kept)
+            if on and cs["inside"] and mg != "none" and Fr(mg) > MARGIN and c2_ != "none" and (c2_ == "1" or not row_dep):
+                rep.count("joint-slice:compared-with-the-original")
+                if g_[idx] != (c2_ == "1"):
+                    rep.fail(f"{call} answers {g_[idx]} at the point {where} on the fixed coordinates (values inside their factors), which is "
+                             f"{'inside' if c2_ == '1' else 'outside'} D evaluated at these values", dict(desc, point=frs(pt)))
+                    failed = True
+                    break
+        if failed:
+            continue
+        # volume against the sequential evaluations
+        vE, ev = attempt(lambda: flat(torch.as_tensor(E.volume(k1))))
+        for label, R_ in refs[:len(seqs)]:
+            vR, er = attempt(lambda: flat(torch.as_tensor(R_.volume(k1))))
+            if ev is None and er is None:
+                rep.count("joint-slice:volume-compared")
+                if not close_lists(vE, vR):
+                    rep.fail(f"{call}.volume = {vE} but {label} give(s) {vR}", desc)
+                    break
+        # samples carry the fixed values on every fixed coordinate
+        for how in ("random",):
+            torch.manual_seed(5 + cs["id"])
+            smp, es = attempt(lambda: E.sample_random_uniform(n=4, params=k1))
+            if es or smp is None:
+                rep.count("joint-slice:sampler-raised")
+                continue
+            rep.count("joint-slice:samples-checked")
+            coords = smp.coordinates
+            for w_ in fvars:
+                want = [float(a) for a in sigma[w_]]
+                if w_ not in coords:
+                    continue
+                col = coords[w_].reshape(-1, len(want)).tolist()
+                bad = [r_ for r_ in col if any(abs(x - y) > 1e-4 * (1 + abs(y)) for x, y in zip(r_, want))]
+                if bad:
+                    rep.fail(f"samples of {call} do not carry the fixed value {w_} = {want}: e.g. {bad[0]} ({len(bad)} of {len(col)} samples)", dict(desc, how=how))
+                    break
+
+
 def malformed_stream(ctx, rep):
     """expressions the constructors reject (a parameter depends on the node's own variable, the second factor
     of a product depends on the first, both directions, a translation vector depending on the own variable):
@@ -1829,6 +2058,13 @@ def replay(ctx, obj):
                   rows=[(unfrs(pt), j) for pt, j in c_["rows"]], large=c_["large"], mixed=c_["mixed"], id=inp["id"])
         rep.case(dict(dom=inp["dom"]), True)
         dtype_judge([cs], rep)
+        return common.finish(ctx, rep, lean)
+    if inp.get("stream") == "joint-slice":
+        cs = dict(node=geomgen.from_json(inp["dom"]), shape=inp["shape"], leaves=inp["leaves"], fvars=inp["fixed_factor_variables"],
+                  sigma=unfrs(inp["sigma"]), order=inp["keyword_order"], prow=[unfrs(p_) for p_ in inp["prow"]],
+                  rows=[(unfrs(pt), j) for pt, j in inp["rows"]], inside=inp["inside"], rest=inp["remaining"], id=inp["id"])
+        rep.case(dict(dom=inp["dom"]), True)
+        joint_slice_judge([cs], rep, ctx.rng)
         return common.finish(ctx, rep, lean)
     if inp.get("stream") == "resupply":
         cs = dict(node=geomgen.from_json(inp["dom"]), kind=inp["kind"], dflt=unfrs(inp["python_defaults"]), s1=unfrs(inp["first_call"]),
